@@ -161,6 +161,21 @@ def run_case(spec, ctx):
         # building the power balance of the whole system minus the same system's other contributions
         for k in range(3):
             system.reset()
+            if k == 2 and kind in ("tpi", "rev") and law != "Maxwell" and rng.random() < 0.6:
+                # parameter study: the public stiffness / damping of the existing element are changed and the system is
+                # assembled again; every clause must hold for the element as it is NOW
+                linfo = dict(linfo)
+                for attr in ("k", "d"):
+                    if hasattr(elem, attr) and attr in linfo:
+                        linfo[attr] = float(linfo[attr] * rng.uniform(0.3, 3.0))
+                        setattr(elem, attr, linfo[attr])
+                det = {**det, "parameters_changed_after_construction": {a: linfo[a] for a in ("k", "d") if a in linfo}}
+                ctx.cls("element:parameters_changed_after_construction")
+                try:
+                    system.assemble(options=gen.no_cic_options())
+                except Exception as e:
+                    _exc(ctx, f"{spec['kind']}.assemble", e, det)
+                    break
             t = t0 + float(rng.normal())
             if kind == "rev":
                 phi = float(rng.uniform(-6 * np.pi, 6 * np.pi)) if k else float(rng.uniform(-1.4, 1.4))
